@@ -37,7 +37,7 @@ ALPHABET = ['app1', 'app2x', 'applist', 'appscalar', 'app0', 'iter2', 'iter0', '
             'itergen', 'set', 'ctx:app1+app1', 'trunc0', 'trunc1', 'truncm1', 'truncbelow', 'trunclen',
             'truncstr', 'badshape', 'badrank', 'modecycle', 'reopen']
 # additional ops for long random histories
-EXTRA = ['badshape0', 'badrank0', 'md_bad', 'ctx:app1+iterfail_shape', 'ctx:app3+iterfail_raise', 'ctx:app1+app1+app1', 'ctx:set+iter2', 'ctx:applist+app2x', 'ctx:app0+app1', 'ctx:set+app3', 'app_zerod', 'iterfail_shape', 'iterfail_raise', 'iterfail_first', 'setscalar', 'trunclen1', 'truncfloat', 'truncmid', 'truncneg2', 'app3',
+EXTRA = ['ctx:app3+truncm1+app1', 'ctx:app3+trunc1', 'badshape0', 'badrank0', 'md_bad', 'ctx:app1+iterfail_shape', 'ctx:app3+iterfail_raise', 'ctx:app1+app1+app1', 'ctx:set+iter2', 'ctx:applist+app2x', 'ctx:app0+app1', 'ctx:set+app3', 'app_zerod', 'iterfail_shape', 'iterfail_raise', 'iterfail_first', 'setscalar', 'trunclen1', 'truncfloat', 'truncmid', 'truncneg2', 'app3',
          'recreate', 'recreate_fill', 'md_set', 'md_pop', 'md_clear', 'itergen3', 'copy', 'copycast']
 STARTS = [(0,), (3,), (0, 2), (2, 2), (2, 1, 3)]
 
@@ -63,7 +63,7 @@ def build(op, ref, rng, meta):
     if op.startswith('ctx:'):
         # several valid operations performed inside ONE open_array() context of the same object
         subs = op[4:].split('+')
-        cur, dos = ref, []
+        cur, dos, states = ref, [], []
         final = None
         for k_, sop in enumerate(subs):
             e, d_ = build(sop, cur, rng, meta)
@@ -73,22 +73,28 @@ def build(op, ref, rng, meta):
                 raise ValueError(f'ctx: only valid sub-operations (a failing append only last), not {sop}')
             cur = e
             dos.append(d_)
-
-        states = []          # expected contents after each sub-operation (for probes made INSIDE the context)
-        cur2 = ref
-        for k_, sop in enumerate(subs):
-            pass
+            states.append(e)     # expected contents after each sub-operation (for reads made INSIDE the context)
+        read_inside = rng.random() < 0.5      # in half of the composites nothing is read inside (observation
+                                              # must not become part of every workload)
 
         def do(D, a, p):
             with a.open_array():
                 for k_, d_ in enumerate(dos):
                     try:
                         a = d_(D, a, p)
+                        if read_inside:
+                            try:
+                                do.inside.append((k_, a[:], len(a)))
+                            except Exception as e_:
+                                do.inside.append((k_, e_, None))
                     finally:
                         if do.probe is not None:
                             do.probe(k_, len(dos))
             return a
         do.probe = None
+        do.inside = []
+        do.states = states
+        do.subs = subs
         return (Partial(cur) if final is not None else cur), do
 
     if op in ('app1', 'app3'):
@@ -314,6 +320,17 @@ def run(env, res, case, monitors):
                 except Exception as e:   # includes StopIteration etc.
                     raised = e
                 new_bytes = datafile.read_bytes() if datafile.exists() else None
+                if 'model' in monitors and getattr(do, 'inside', None):
+                    # what the handle shows INSIDE its own open context after each completed sub-operation
+                    for k_, got, glen in do.inside:
+                        res.count('mon.read_inside_context')
+                        want = do.states[k_]
+                        if isinstance(got, Exception) or not bits_equal(np.asarray(got), want) or glen != want.shape[0]:
+                            res.fail(f'model:inside-context-read:{do.subs[k_].rstrip("0123456789x")}',
+                                     f'step {i} {op}: inside the open context, after sub-operation {k_ + 1} ({do.subs[k_]}) '
+                                     f'a[:] gives {describe(got) if not isinstance(got, Exception) else repr(got)[:120]} '
+                                     f'(len {glen}), the array holds {describe(want)}', step=i, op=op)
+                            break
                 if isinstance(expected, Either):
                     expected = REJECT if raised is not None else expected.accepted
                 if isinstance(expected, Partial):
@@ -358,7 +375,7 @@ def run(env, res, case, monitors):
                         return
                     changed = not bits_equal(expected, ref)
                     if 'prefix' in monitors and new_bytes is not None:
-                        if op.startswith(('app', 'iter', 'ctx:app', 'ctx:iter')) and 'set' not in op:
+                        if op.startswith(('app', 'iter', 'ctx:app', 'ctx:iter')) and 'set' not in op and 'trunc' not in op:
                             res.count('mon.prefix_append')
                             if not new_bytes.startswith(old_bytes):
                                 res.fail('prefix:append-altered-earlier-bytes',
